@@ -1336,7 +1336,7 @@ def truth_subject(c, locs):
         break
     return c
 
-def rule_maybe(rows, prop, only=None):
+def rule_maybe(rows, prop, only=None, fn_only=None):
     tbl = load_table("roles.json")
     findings, samples, n = [], [], 0
     seen = set()
@@ -1345,6 +1345,8 @@ def rule_maybe(rows, prop, only=None):
             continue
         if re.fullmatch(r"nmtools::unwrap", r["fn"]):
             continue   # the primitive itself: its call sites are the dereferences
+        if fn_only and not re.search(fn_only, r["fn"]):
+            continue
         locs, _ = single_def_locals(r)
         for f in r["facts"]:
             if f["k"] != "deref" or not is_maybe_type(f["c"]):
@@ -1463,6 +1465,24 @@ def comp_maybe_div(prop, tier, comp, work):
     f1, n1, s1 = rule_maybe(rows, prop)
     f2, n2, s2 = rule_div(rows, prop)
     out.update(findings=f1 + f2, instances={"R-MAYBE": n1, "R-DIV": n2}, evaluations=n1 + n2, distinct_nontrivial=n1 + n2 - len(f1 + f2), samples=s1 + s2, wall_s=round(time.time() - t0, 2))
+    return out
+
+
+def comp_maybe_compare(prop, tier, comp, work):
+    """R-MAYBE restricted to the comparison oracles (C18): isequal / isclose / apply_isequal / apply_isclose never dereference an
+    optional operand that was not tested on that path - two empty optionals are compared without being read"""
+    t0 = time.time()
+    tu = os.path.join(VERIF, "drivers", "maybe_inst.cpp")
+    rows, err, cmd = run_nmlint(tu, filters=["/include/nmtools/utility/"], inst=True, cfg=True)
+    out = dict(broken=[], units=1, functions=len(rows), cmd=cmd)
+    if err:
+        out["broken"].append(err); return out
+    f, k, samples = rule_maybe(rows, prop, fn_only=r"nmtools::utils::(detail::)?(apply_)?is(equal|close)")
+    for x in f:
+        x["rule"] = "R-MAYBE.compare"
+    if k == 0:
+        out["broken"].append("R-MAYBE.compare: no dereference of an optional found in the comparison oracles (driver lost its instantiations)")
+    out.update(findings=f, instances={"R-MAYBE.compare": k}, evaluations=k, distinct_nontrivial=k - len(f), samples=samples, wall_s=round(time.time() - t0, 2))
     return out
 
 
@@ -2473,4 +2493,4 @@ def comp_fwd_array(prop, tier, comp, work):
     return out
 
 
-RULES = {"R-FWD.array": comp_fwd_array, "R-FWD.functional": comp_fwd_functional, "R-UFUNC": comp_ufunc, "R-KSIB": comp_ksib, "R-SIMD": comp_simd, "R-CONSTBRANCH": comp_constbranch, "R-TRAITPROV": comp_traitprov, "R-MAYBE-DIV": comp_maybe_div, "R-OWN": comp_own, "R-EVAL": comp_eval, "R-EQSHAPE": comp_eqshape, "R-PAIR": comp_pair, "R-FOLD": comp_fold, "R-MEMCOPY": comp_memcopy, "R-AXISNORM": comp_axisnorm, "R-AXISNORM.simd": comp_axisnorm_simd, "R-UFWD.reduce": comp_ufwd_reduce, "R-PARAMUSE": comp_paramuse, "R-GETFN": comp_getfn, "R-MAYBE.broadcast": comp_maybe_bcast, "R-SIMDSIB": comp_simdsib, "R-EQLEN": comp_eqlen}
+RULES = {"R-FWD.array": comp_fwd_array, "R-FWD.functional": comp_fwd_functional, "R-UFUNC": comp_ufunc, "R-KSIB": comp_ksib, "R-SIMD": comp_simd, "R-CONSTBRANCH": comp_constbranch, "R-TRAITPROV": comp_traitprov, "R-MAYBE-DIV": comp_maybe_div, "R-OWN": comp_own, "R-EVAL": comp_eval, "R-EQSHAPE": comp_eqshape, "R-PAIR": comp_pair, "R-FOLD": comp_fold, "R-MEMCOPY": comp_memcopy, "R-AXISNORM": comp_axisnorm, "R-AXISNORM.simd": comp_axisnorm_simd, "R-UFWD.reduce": comp_ufwd_reduce, "R-PARAMUSE": comp_paramuse, "R-GETFN": comp_getfn, "R-MAYBE.broadcast": comp_maybe_bcast, "R-SIMDSIB": comp_simdsib, "R-EQLEN": comp_eqlen, "R-MAYBE.compare": comp_maybe_compare}
